@@ -76,6 +76,8 @@ def c19(ctx):
                 ok = exp1.startswith(tok) or exp2.startswith(tok) if not tok.endswith('>') else tok in (exp1, exp2)
                 seen_tokens[(tkey, acc[0])] = tok
                 ctx.check('type-table', ok, t.site(), 'variable of type %s size %s access %s is described as %r (expected %s)' % (typ[0], tkey[1], acc[0], tok, exp2))
+            if False:
+                pass
             # order: one variable per step, separated by a comma
             if t.to == t.frm:
                 a, b = t.pre.mem.get(idxloc), t.raw.mem.get(idxloc)
@@ -91,6 +93,14 @@ def c19(ctx):
                     ctx.check('order', len(descs) >= 1, t.site(), 'the description is not appended to the TEST response')
                 elif dn is True:
                     ctx.check('order', not descs, t.site(), 'a NULL description is printed')
+    # the variable cursor starts at the first variable whenever formatting starts (both machines, both formatters)
+    for which in ('cmd', 'evt'):
+        ex, ts = transitions(ctx, which)
+        idxloc = ('S', 'index') if which == 'cmd' else ('S', 'unsolicited_fsm', 'index')
+        for t in ts:
+            if ('STATE_FORMAT_TEST_ARGS' in t.to or 'STATE_FORMAT_READ_ARGS' in t.to) and 'AFTER' not in t.to and t.to != t.frm:
+                ctx.check('order', cval(t.raw.mem.get(idxloc)) == 0, t.site(),
+                          'formatting starts in %s with variable cursor %s instead of 0' % (short(t.to), t.raw.mem.get(idxloc)))
     ctx.extra['distinct_tokens'] = len(seen_tokens)
     if len(seen_tokens) < 20:
         raise AnalysisBroken('only %d (type, access) combinations of the TEST token were extracted' % len(seen_tokens))
